@@ -35,6 +35,10 @@ type Config struct {
 	Ids     [][2]string         `json:"ids"`   // every (kind, id) the behaviours may activate / spawn
 	Kinds   []string            `json:"kinds"` // kinds asked through HasKind
 	Up      []string            `json:"up"`    // members at the start
+	// the id "bulk" of a behaviour stands for a block of Bulk actors (ids bulk0000, bulk0001, ...): every operation on
+	// it is carried out for each of them, every message about it stands for the block's messages, and a node "knows
+	// bulk" iff it knows all of them (on the same host)
+	Bulk int `json:"bulk"`
 	// provider mode (C20): node 0 runs the real self-managed provider; the steps are its inputs
 	Provider bool `json:"provider"`
 }
@@ -296,17 +300,34 @@ func (r *rig) observe(n *node, wantReg map[[2]string]bool) NodeState {
 		}
 	}
 	for _, id := range r.cfg.Ids {
-		full := id[0] + "/" + id[1]
-		if pid := n.c.GetActiveByID(full); pid != nil {
-			st.Activated = append(st.Activated, PidJ{r.name[pid.Address], id[0], id[1]})
+		hosts := map[string]int{}
+		alive := 0
+		ex := r.expand(id[1])
+		for _, x := range ex {
+			full := id[0] + "/" + x
+			if pid := n.c.GetActiveByID(full); pid != nil {
+				hosts[r.name[pid.Address]]++
+			}
+			// an actor being poisoned needs a moment to go: wait for the registry to reach what the model says
+			deadline := time.Now().Add(2 * time.Second)
+			for (n.e.Registry.GetPID(id[0], x) != nil) != wantReg[id] && time.Now().Before(deadline) {
+				time.Sleep(200 * time.Microsecond)
+			}
+			if n.e.Registry.GetPID(id[0], x) != nil {
+				alive++
+			}
 		}
-		// an actor being poisoned needs a moment to go: wait for the registry to reach what the model says
-		deadline := time.Now().Add(2 * time.Second)
-		for (n.e.Registry.GetPID(id[0], id[1]) != nil) != wantReg[id] && time.Now().Before(deadline) {
-			time.Sleep(200 * time.Microsecond)
+		for h, k := range hosts {
+			if k == len(ex) {
+				st.Activated = append(st.Activated, PidJ{h, id[0], id[1]})
+			} else {
+				st.Activated = append(st.Activated, PidJ{h, id[0], fmt.Sprintf("%s(%d of %d)", id[1], k, len(ex))})
+			}
 		}
-		if n.e.Registry.GetPID(id[0], id[1]) != nil {
+		if alive == len(ex) {
 			st.Registry = append(st.Registry, id)
+		} else if alive > 0 {
+			st.Registry = append(st.Registry, [2]string{id[0], fmt.Sprintf("%s(%d of %d)", id[1], alive, len(ex))})
 		}
 	}
 	return st
@@ -485,6 +506,67 @@ func runProviderScenario(cfg Config, sc Scenario) (fail *Failure) {
 	return nil
 }
 
+const bulkID = "bulk"
+
+// collapse: k identical events (one per actor of the block) stand for the one event of the model
+func collapse(evs []EvJ, k int) []EvJ {
+	cnt := map[EvJ]int{}
+	for _, e := range evs {
+		cnt[e]++
+	}
+	var out []EvJ
+	for e, c := range cnt {
+		if e.E != "activation" && e.E != "deactivation" { // (in a bulk configuration every actor belongs to the block)
+			for ; c > 0; c-- {
+				out = append(out, e)
+			}
+			continue
+		}
+		for ; c >= k; c -= k {
+			out = append(out, e)
+		}
+		for ; c > 0; c-- {
+			out = append(out, EvJ{e.E + "(single)", e.N, e.M})
+		}
+	}
+	return out
+}
+
+func (r *rig) expand(id string) []string {
+	if id != bulkID || r.cfg.Bulk <= 0 {
+		return []string{id}
+	}
+	out := make([]string, r.cfg.Bulk)
+	for k := range out {
+		out[k] = fmt.Sprintf("%s%04d", bulkID, k)
+	}
+	return out
+}
+
+func isBulkPID(p *actor.PID) bool {
+	if p == nil {
+		return false
+	}
+	i := strings.LastIndex(p.ID, "/")
+	return i >= 0 && strings.HasPrefix(p.ID[i+1:], bulkID)
+}
+
+// sameBlock: packet b belongs to the block of messages that packet a starts (the model has one message for it)
+func sameBlock(a, b packet) bool {
+	switch x := a.msg.(type) {
+	case *cluster.Activation:
+		y, ok := b.msg.(*cluster.Activation)
+		return ok && isBulkPID(x.PID) && isBulkPID(y.PID)
+	case *cluster.Deactivation:
+		y, ok := b.msg.(*cluster.Deactivation)
+		return ok && isBulkPID(x.PID) && isBulkPID(y.PID)
+	case *cluster.ActorTopology:
+		_, ok := b.msg.(*cluster.ActorTopology) // a topology may legitimately travel in several pieces
+		return ok
+	}
+	return false
+}
+
 func runScenario(cfg Config, sc Scenario) (fail *Failure) {
 	if cfg.Provider {
 		return runProviderScenario(cfg, sc)
@@ -535,16 +617,18 @@ func runScenario(cfg Config, sc Scenario) (fail *Failure) {
 				}
 				return r.member(want) // a select function is free to ignore the candidates it is offered
 			}
-			pid := n.c.Activate(st.K, cluster.NewActivationConfig().WithID(st.I).WithSelectMemberFunc(sel))
-			got := "nil"
-			if pid != nil {
-				got = r.name[pid.Address]
-				if pid.ID != st.K+"/"+st.I {
-					got += "(" + pid.ID + ")"
+			for _, x := range r.expand(st.I) {
+				pid := n.c.Activate(st.K, cluster.NewActivationConfig().WithID(x).WithSelectMemberFunc(sel))
+				got := "nil"
+				if pid != nil {
+					got = r.name[pid.Address]
+					if pid.ID != st.K+"/"+x {
+						got += "(" + pid.ID + ")"
+					}
 				}
-			}
-			if got != st.Ret {
-				return bad(i, fmt.Sprintf("Activate(%s/%s) on %s with the select function choosing %s returned %s, expected %s", st.K, st.I, st.N, st.M, got, st.Ret))
+				if got != st.Ret {
+					return bad(i, fmt.Sprintf("Activate(%s/%s) on %s with the select function choosing %s returned %s, expected %s", st.K, x, st.N, st.M, got, st.Ret))
+				}
 			}
 			touched = append(touched, st.N)
 			if st.Ret != "nil" && st.Ret != st.N {
@@ -552,7 +636,9 @@ func runScenario(cfg Config, sc Scenario) (fail *Failure) {
 			}
 		case "Deactivate":
 			n := r.nodes[st.N]
-			n.c.Deactivate(actor.NewPID(r.addr[st.P.H], st.P.K+"/"+st.P.I))
+			for _, x := range r.expand(st.P.I) {
+				n.c.Deactivate(actor.NewPID(r.addr[st.P.H], st.P.K+"/"+x))
+			}
 			touched = append(touched, st.N)
 		case "ClusterSpawn":
 			n := r.nodes[st.N]
@@ -567,10 +653,16 @@ func runScenario(cfg Config, sc Scenario) (fail *Failure) {
 					r.net.mu.Unlock()
 					return bad(i, fmt.Sprintf("no message in flight from %s to %s (the model has one)", st.Src, st.Dst))
 				}
-				p := q[0]
-				r.net.queues[k] = q[1:]
+				cnt := 1
+				for cnt < len(q) && sameBlock(q[0], q[cnt]) {
+					cnt++
+				}
+				blk := q[:cnt]
+				r.net.queues[k] = q[cnt:]
 				r.net.mu.Unlock()
-				r.nodes[st.Dst].e.SendLocal(p.target, p.msg, p.sender)
+				for _, p := range blk {
+					r.nodes[st.Dst].e.SendLocal(p.target, p.msg, p.sender)
+				}
 			}
 			touched = append(touched, st.Dst)
 		default:
@@ -612,6 +704,9 @@ func runScenario(cfg Config, sc Scenario) (fail *Failure) {
 			if up[e.N] || len(cfg.Up) == 0 {
 				mine = append(mine, e)
 			}
+		}
+		if cfg.Bulk > 0 {
+			mine = collapse(mine, cfg.Bulk)
 		}
 		if canonEvents(mine) != canonEvents(st.Events) {
 			return bad(i, fmt.Sprintf("after %s the events published are [%s], expected [%s]", describe(st), canonEvents(mine), canonEvents(st.Events)))
